@@ -6,7 +6,8 @@
    parent pointers and object identity do not exist in it; those two clauses of the property are checked on the
    implementation by the pointer-level walker of harness/go/resolve.go (treeviol), see check/props/c04.py. *)
 From Coq Require Import List NArith Bool.
-From GY Require Import Model.Schema Spec.C04 Proofs.SchemaLemmas Proofs.TreeInvProofs.
+From Coq Require Import Permutation.
+From GY Require Import Model.Schema Spec.C04 Proofs.SchemaLemmas Proofs.TreeInvProofs Proofs.TreeInvFull.
 Import ListNotations.
 
 (* T1 (every clause but one, unconditional): whatever the module set, the options and the visiting order, every tree
@@ -18,13 +19,33 @@ Theorem C04_T1_tree_invariant : forall SC ignoreCirc ignoreNotSupported order F,
   Process SC ignoreCirc ignoreNotSupported order = ROk F -> ForestInv false F.
 Proof. exact Process_TreeInv_weak. Qed.
 
-(* T1 (all clauses, "every child of a choice is a case" included) -- PARTIAL: under two side conditions that are
-   computable and evaluated by check/props/c04.py on every generated case:
-   (h1) the reporting pass Augment(true) applies no augment (the rounds of {retry loop; FixChoice} had reached their
-        fixpoint) and (h2) the depth measurement that fixes FixChoice's fuel was not cut off at entry_fuel.
-   Missing: a proof that (h1) and (h2) hold for every module set (h1 is C07's "no applicable augment is left",
-   h2 a bound on tree heights by the size of the sources). *)
+(* T1 (all clauses, "every child of a choice is a case" included), for every module set with pairwise distinct module
+   names and every visiting order that visits every module (what Go's sorted iteration does) -- PARTIAL in one respect
+   only: the residual hypothesis [heights_okb]: no depth measurement that fixes FixChoice's fuel was cut off at
+   entry_fuel (if one were, FixChoice would not reach the nodes below the cut and the clause could fail there).
+   Missing: a bound of the heights of all trees by entry_fuel (a path-counting argument over sources, uses chains and
+   augment chains).  [heights_okb] is computable; check/props/c04.py evaluates it, extracted, on every clean case. *)
 Theorem C04_T1_choice_clause_partial : forall SC ignoreCirc ignoreNotSupported order F,
+  NoDup (map m_name SC) -> (forall m, In m SC -> In (m_name m) order) ->
+  Process SC ignoreCirc ignoreNotSupported order = ROk F ->
+  heights_okb SC ignoreCirc order = true -> ForestInv true F.
+Proof. exact Process_TreeInv_choice. Qed.
+
+Theorem C04_T1_choice_clause_perm_partial : forall SC ignoreCirc ignoreNotSupported order F,
+  NoDup (map m_name SC) -> Permutation (map m_name SC) order ->
+  Process SC ignoreCirc ignoreNotSupported order = ROk F ->
+  heights_okb SC ignoreCirc order = true -> ForestInv true F.
+Proof. exact Process_TreeInv_choice_perm. Qed.
+
+(* the reporting pass Augment(true) applies no augment: after the rounds of {retry loop; FixChoice} have reached their
+   fixpoint no pending augment is applicable (C07: Proofs/AugmentProofs.v final_pass_applies_nothing), so FixChoice is
+   the last thing that happens to every tree before the deviations *)
+Theorem C04_T1_reporting_pass_idle : forall SC ignoreCirc order,
+  NoDup (map m_name SC) -> (forall m, In m SC -> In (m_name m) order) -> final_applied SC ignoreCirc order = 0.
+Proof. exact reporting_pass_idle. Qed.
+
+(* the general form, for arbitrary visiting orders: under the two computable side conditions *)
+Theorem C04_T1_choice_clause_side_conditions : forall SC ignoreCirc ignoreNotSupported order F,
   Process SC ignoreCirc ignoreNotSupported order = ROk F ->
   final_applied SC ignoreCirc order = 0 -> heights_okb SC ignoreCirc order = true -> ForestInv true F.
 Proof. exact Process_TreeInv_full_b. Qed.
@@ -112,10 +133,15 @@ Definition ex_mod : module :=
      m_augments := [(s [47;112;58;97], [lf n_b])]; m_deviations := [] |}.
 
 Example C04_ex_clean : exists F, Process [ex_mod] false false [n_m] = ROk F /\
+  NoDup (map m_name [ex_mod]) /\ (forall m, In m [ex_mod] -> In (m_name m) [n_m]) /\
   final_applied [ex_mod] false [n_m] = 0 /\ heights_okb [ex_mod] false [n_m] = true /\
   match locate_pos F (n_m, [SChild n_a; SChild n_c; SChild n_b; SChild n_b]) with
   | Some e => e_kind e = KLeaf | None => False end.
-Proof. eexists. split; [vm_compute; reflexivity|]. vm_compute. repeat split. Qed.
+Proof.
+  eexists. split; [vm_compute; reflexivity|].
+  split; [repeat constructor; intros []|]. split; [intros m [<-|[]]; left; reflexivity|].
+  vm_compute. repeat split.
+Qed.
 
 (* a late conflict: the augment adds a name the uses already brought: error, not a clean result *)
 Definition ex_conflict : module :=
